@@ -60,6 +60,8 @@ func init() {
 	h.Register(&h.Engine{Name: "pipe", Rule: "distinct (scenario, schedule seed) reaching a shutdown with recorded queue fill levels", Gen: genPipe, Exec: execPipe})
 	h.Register(&h.Engine{Name: "pipepaste", Rule: "the real screen under the schedule controller: a paste whose end marker is lost (Suspend+Resume or DisablePaste/EnablePaste in the middle of it), then a complete paste in random chunkings; distinct = distinct line; non-trivial = the tail check ran",
 		Gen: genPipePaste, Exec: execPipe})
+	h.Register(&h.Engine{Name: "pipemouse", Rule: "the real screen under the schedule controller: a press report, EnableMouse / DisableMouse calls with other flags, then drag reports, the release and a buttonless motion, in random chunkings; distinct = distinct line; non-trivial = the tail check ran",
+		Gen: genPipeMouse, Exec: execPipe})
 	h.Register(&h.Engine{Name: "pipeesc", Rule: "the real screen free running in real time: an incomplete escape sequence read in 2-3 pieces 5-20 ms apart, silence, then complete keys; distinct = distinct line; non-trivial = the escape-timeout check ran",
 		Gen: genPipeEsc, Exec: execPipe})
 }
@@ -592,6 +594,31 @@ func genPipeOne(r *h.Rand, kind int) string {
 			ops = " ; wait stall ; suspend ; resume ; wait stall ; suspend ; resume ; more ; check2 ; fini"
 		}
 		return hdr(steps, exp, expat, fmt.Sprintf("feed2=%s exp2=%s cons=%s stop=-1 pend=%d post=0 draw=%d", ppJoin(steps2), ppJoin(exp2), ppCons(r), r.Intn(2), r.Intn(2))) + ops
+	case 12: // C12: a press, then mode-changing calls (EnableMouse with other flags, DisableMouse+EnableMouse), then drags and the release
+		x, y := r.Range(1, 80), r.Range(1, 24)
+		btn := h.Pick(r, []int{0, 1, 2}) // left, middle, right in xterm numbering
+		mask := map[int]int{0: 1, 1: 4, 2: 2}[btn] // tcell: Button1 = 1, Button3 (middle) = 4, Button2 (right) = 2
+		mods := h.Pick(r, []int{0, 0, 4, 8, 16})    // shift 4, meta 8, ctrl 16 in the report; tcell ModShift 1, ModCtrl 2, ModAlt 4
+		tm := map[int]int{0: 0, 4: 1, 8: 4, 16: 2}[mods]
+		items := ppItems(r, r.Range(0, 4), false, 0)
+		items = append(items, ppItem{[]byte(fmt.Sprintf("\x1b[<%d;%d;%dM", btn+mods, x, y)), fmt.Sprintf("M%d.%d.%d.%d", x-1, y-1, mask, tm)})
+		steps, exp, expat := ppFeed(r, items, 3, 20, 0, -1)
+		var items2 []ppItem
+		for k := r.Range(1, 4); k > 0; k-- {
+			x, y = r.Range(1, 80), r.Range(1, 24)
+			items2 = append(items2, ppItem{[]byte(fmt.Sprintf("\x1b[<%d;%d;%dM", 32+btn+mods, x, y)), fmt.Sprintf("M%d.%d.%d.%d", x-1, y-1, mask, tm)})
+		}
+		items2 = append(items2, ppItem{[]byte(fmt.Sprintf("\x1b[<%d;%d;%dm", btn+mods, x, y)), fmt.Sprintf("M%d.%d.0.%d", x-1, y-1, tm)})
+		items2 = append(items2, ppItem{[]byte(fmt.Sprintf("\x1b[<%d;%d;%dM", 35, x, y)), fmt.Sprintf("M%d.%d.0.0", x-1, y-1)}) // motion, no button
+		items2 = append(items2, ppItems(r, r.Range(0, 2), false, 70)...)
+		steps2, exp2, _ := ppFeed(r, items2, 4, 20, 0, -1)
+		mid := h.Pick(r, []string{"enablemouse 7", "enablemouse 3", "enablemouse 1 ; enablemouse 7", "disablemouse ; enablemouse", "enablemouse", "enablemouse 6", ""})
+		ops := " ; wait stall"
+		if mid != "" {
+			ops += " ; " + mid
+		}
+		ops += " ; more ; checktail ; fini"
+		return hdr(steps, exp, expat, fmt.Sprintf("feed2=%s exp2=%s cons=%s stop=-1 pend=%d post=0 draw=%d", ppJoin(steps2), ppJoin(exp2), ppCons(r), r.Intn(2), r.Intn(2))) + ops
 	case 10: // real time: an incomplete sequence read in 2..3 pieces a few ms apart, then silence; then a complete key
 		pre := h.Pick(r, [][]string{{"1b", "5b"}, {"1b", "4f"}, {"1b", "1b"}, {"1b", "5b", "31"}, {"1b", "5b31", "3b"}, {"1b5b", "31"}, {"1b", "5b3c"}, {"1b", "5b", "32"},
 			{"1b", "5b32", "30"}, {"1b", "5d"}, {"1b", "50"}, {"1b5b31", "3b35"}, {"1b", "1b", "5b"}, {"1b", "5b", "3c33"}, {"61", "1b", "5b"}, {"1b", "5b33"}})
@@ -671,6 +698,14 @@ func genPipe(g *h.Gen) {
 func genPipePaste(g *h.Gen) {
 	for i := g.N(24, 400); i > 0; i-- {
 		g.Emit("%s", genPipeOne(g.R, 9))
+	}
+	ppLines = append(ppLines, g.Lines...)
+}
+
+// engine pipemouse (C12): the button state machine across mode-changing calls on the live screen
+func genPipeMouse(g *h.Gen) {
+	for i := g.N(30, 400); i > 0; i-- {
+		g.Emit("%s", genPipeOne(g.R, 12))
 	}
 	ppLines = append(ppLines, g.Lines...)
 }
